@@ -12,7 +12,7 @@ RULE = ("one evaluation = one (frame list, partition of the concatenated stream)
         "frame (header or payload) / for outgoing: size class boundary; distinct by (frame sizes, content mode, cuts)")
 ASSUMPTIONS = ["frames are non-empty (the quantifier excludes empty frames)",
                "the layer is driven single-threaded, as the network thread does"]
-REQUIRED = ["recv_cases", "send_cases", "cuts_inside_header", "cuts_inside_payload", "oversize_refused", "reconnect_cases", "reconnect_ok", "reconnect_cut:header", "reconnect_cut:payload", "reconnect_closed_inside_delivery", "real_midframe_cases", "real_midframe_ok", "real_stream_cases", "real_stream_ok", "real_stream:socket", "real_stream:asyncore"]
+REQUIRED = ["toggle_histories", "toggle_ok", "toggle_switches", "recv_cases", "send_cases", "cuts_inside_header", "cuts_inside_payload", "oversize_refused", "reconnect_cases", "reconnect_ok", "reconnect_cut:header", "reconnect_cut:payload", "reconnect_closed_inside_delivery", "real_midframe_cases", "real_midframe_ok", "real_stream_cases", "real_stream_ok", "real_stream:socket", "real_stream:asyncore"]
 EXHAUSTIVE = None
 
 
@@ -124,6 +124,56 @@ def judge_send(acc, size, enabled, r=None):
                       % (size, enabled, len(out), out[:3].hex()), {"dir": "send", "size": size, "enabled": enabled})
     else:
         acc.count("send_ok_enabled" if enabled else "send_ok_passthrough")
+
+
+def judge_toggle_history(acc, r, case_id):
+    """One framing layer through a history in which framing is switched on and off between writes and reads (what the Noise layer
+    does around the connection prologue: edge routing header on/off/on, plain 'WA' magic off, handshake on) and connections end:
+    a write made while framing is on is len3+payload, one made while it is off is the payload alone; likewise for reads."""
+    st, b, t, S = _mk()
+    w = {"dir": "toggle-history", "case": case_id, "ops": []}
+    acc.count("toggle_histories")
+    acc.case(["tg", case_id], nontrivial=True)
+    enabled = r.random() < 0.5
+    st.setProp(S.PROP_ENABLED, enabled)
+    from yowsup.layers import YowLayerEvent
+    from yowsup.layers.network import YowNetworkLayer
+    switches = 0
+    for i in range(r.randint(4, 14)):
+        op = r.choice(["toggle", "toggle", "send", "send", "recv", "disconnected"])
+        if op == "toggle":
+            enabled = not enabled
+            st.setProp(S.PROP_ENABLED, enabled)
+            switches += 1
+            w["ops"].append("on" if enabled else "off")
+            continue
+        if op == "disconnected":
+            b.emitEvent(YowLayerEvent(YowNetworkLayer.EVENT_STATE_DISCONNECTED, reason="x", detached=True))
+            w["ops"].append("disconnected")
+            continue
+        n = r.choice([1, 2, 4, 9, r.randint(1, 400)])
+        payload = bytes(r.getrandbits(8) for _ in range(n))
+        w["ops"].append("%s%d" % (op, n))
+        b.clear()
+        t.clear()
+        try:
+            if op == "send":
+                t.send(payload)
+                got = b"".join(bytes(x) for x in b.sent)
+                want = (struct.pack(">I", n)[1:] if enabled else b"") + payload
+            else:
+                b.receive((struct.pack(">I", n)[1:] if enabled else b"") + payload)
+                got = [bytes(x) for x in t.received]
+                want = [payload]
+        except Exception as e:  # noqa
+            acc.violation("toggle:exception:%s" % type(e).__name__, "framing layer raised %r in a history with framing switched on and off" % (e,), w)
+            return
+        if got != want:
+            acc.violation("toggle:%s:framing-%s" % (op, "on" if enabled else "off"), "%s of %d bytes while framing is %s (after %s): got %s, expected %s"
+                          % (op, n, "on" if enabled else "off", w["ops"][-6:-1], (got if op == "send" else [x[:8] for x in got])[:12], (want if op == "send" else [x[:8] for x in want])[:12]), w)
+            return
+    acc.count("toggle_switches", switches)
+    acc.count("toggle_ok")
 
 
 def judge_reconnect(acc, r, case_id):
@@ -477,6 +527,7 @@ def run(spec, acc):
     elif spec["kind"] == "reconnect":
         for i in range(spec["n"]):
             judge_reconnect(acc, gen.rng(seed, ID, "reconnect/%d" % i), i)
+            judge_toggle_history(acc, gen.rng(seed, ID, "toggle/%d" % i), i)
         acc.sample({"reconnect": "stream cut at a random byte, detached 'disconnected' from the layer below, next stream before the loop turns"})
     elif spec["kind"] == "send":
         fixed = [1, 2, 255, 256, 65535, 65536, (1 << 24) - 1, 1 << 24, (1 << 24) + 1]
